@@ -41,6 +41,18 @@ theorem C08_flush_prefix_in_order (q : List Msg) :
       · simp [List.dropWhile, ha] at hx; subst hx; exact ha
       · simp [List.dropWhile, ha] at hx; exact ih hx
 
+/-- the one-shot rule applied by the final flush (D-03c) only ever drops messages: what is handed over is a subsequence of the
+messages in front of the pill, so mailbox order is kept -/
+theorem C08_flush_keeps_order (m : ModId) : ∀ (pre : List Msg) (s : St), (flushKeep m pre s).Sublist pre
+  | [], _ => by simp [flushKeep]
+  | x :: xs, s => by
+    unfold flushKeep
+    split
+    · split
+      · exact List.Sublist.cons _ (C08_flush_keeps_order m xs _)
+      · exact List.Sublist.cons_cons _ (C08_flush_keeps_order m xs _)
+    · exact List.Sublist.cons_cons _ (C08_flush_keeps_order m xs _)
+
 /-- a pill sent to a RUNNING module is appended behind every earlier message, like any other message -/
 theorem C08_pill_is_ordered (s : St) (m r : ModId) (md : Mod) (q : List Msg)
     (hm : (s.updMod m fun x => { x with sent := x.sent + 1 }).mods[r]? = some md) (he : md.state = .running) (hp : md.pipe = some q)
